@@ -360,7 +360,7 @@ class Tr:
         if v.ty == ty:
             return v
         if v.ty.k == "N" and ty.k == "Z":
-            return V("(%s : Int)" % v.t, Z, 100, nonneg=True)
+            return V(("(%s : Int)" if v.p >= 100 else "((%s : Nat) : Int)") % v.t, Z, 100, nonneg=True)
         if v.ty.k == "N" and ty.k == "Q":
             return V("(%s : Rat)" % v.t, Q, 100)
         if v.ty.k == "Z" and ty.k == "N":
@@ -389,15 +389,20 @@ class Tr:
         return [V(proj(v.t, i, n), t) for i, t in enumerate(v.ty.args)]
 
     def materialise(self, v):
-        """the list an elementwise expression denotes"""
+        """the list an elementwise expression denotes (`map` over one array, `zipWith` over two)"""
         if v.vec is None:
             return v
-        base, fn = v.vec
+        bases, fn = v.vec
         saved = set(self.used)
-        x = self.fresh("x")
-        b = fn(V(x, base.ty.args[0]))
+        xs = [V(self.fresh("xyz"[i]), b.ty.args[0], nonneg=b.ty.args[0] == N) for i, b in enumerate(bases)]
+        b = fn(xs)
         self.used = saved
-        return V("%s.map (fun %s => %s)" % (paren(base, 100), x, b.t), L(b.ty), 90)
+        binders = " ".join("(%s : %s)" % (x.t, x.ty.lean()) for x in xs)
+        if len(bases) == 1:
+            return V("%s.map (fun %s => %s)" % (paren(bases[0], 100), binders, b.t), L(b.ty), 90)
+        if len(bases) == 2:
+            return V("List.zipWith (fun %s => %s) %s %s" % (binders, b.t, paren(bases[0], 100), paren(bases[1], 100)), L(b.ty), 90)
+        raise Shape("an elementwise expression over more than two arrays")
 
     def as_cond(self, v):
         if v.ty is None or v.ty.k != "B":
@@ -439,6 +444,8 @@ class Tr:
         if isinstance(node, ast.UnaryOp) and isinstance(node.op, ast.Not):
             v = self.as_cond(self.expr(node.operand))
             return V("¬ %s" % paren(v, 51), B, 40, prop=True) if v.prop else V("!%s" % paren(v, 100), B, 90)
+        if isinstance(node, ast.UnaryOp) and isinstance(node.op, ast.USub):
+            return self.neg(self.expr(node.operand))
         if isinstance(node, ast.Compare):
             return self.compare(node)
         if isinstance(node, ast.BoolOp):
@@ -448,6 +455,13 @@ class Tr:
         if isinstance(node, ast.Subscript):
             return self.subscript(node)
         raise Shape("expression %s" % ast.unparse(node)[:80])
+
+    def neg(self, v):
+        if v.vec is not None:
+            return V(None, None, vec=(v.vec[0], lambda xs: self.neg(v.vec[1](xs))))
+        if v.lit is not None or v.ty is None or v.ty.k not in "NZ":
+            raise Shape("unary minus")
+        return V("-%s" % paren(self.cast(v, Z), 100), Z, 75)
 
     def unify(self, a, b):
         """two numeric operands at a common type"""
@@ -468,12 +482,15 @@ class Tr:
         if type(op) not in BIN:
             raise Shape("operator %s" % type(op).__name__)
         sym, pr = BIN[type(op)]
-        if a.vec is not None or b.vec is not None:                # elementwise over one list (scalar broadcasting)
-            if a.vec is not None and b.vec is not None:
-                raise Shape("arithmetic on two arrays")
-            base = (a.vec or b.vec)[0]
-            fa, fb = (a.vec[1] if a.vec else (lambda x: a)), (b.vec[1] if b.vec else (lambda x: b))
-            return V(None, None, vec=(base, lambda x: self.arith(None, op, fa(x), fb(x))))
+        if a.vec is not None or b.vec is not None:                # elementwise (scalars broadcast)
+            ba, bb = (a.vec[0] if a.vec else []), (b.vec[0] if b.vec else [])
+            if ba and bb and [x.t for x in ba] == [x.t for x in bb]:
+                bases, ia, ib = ba, list(range(len(ba))), list(range(len(ba)))
+            else:
+                bases, ia, ib = ba + bb, list(range(len(ba))), list(range(len(ba), len(ba) + len(bb)))
+            fa = (lambda xs: a.vec[1]([xs[i] for i in ia])) if a.vec else (lambda xs: a)
+            fb = (lambda xs: b.vec[1]([xs[i] for i in ib])) if b.vec else (lambda xs: b)
+            return V(None, None, vec=(bases, lambda xs: self.arith(None, op, fa(xs), fb(xs))))
         if isinstance(op, ast.Sub):
             if a.lit is None and b.lit is None and a.ty == N and b.ty == N and node is not None and self.knows_le(node.right, node.left):
                 return V("%s - %s" % (paren(a, pr), paren(b, pr + 1)), N, pr)        # exact: `b <= a` is known here
@@ -1017,7 +1034,7 @@ class Tr:
     def finish_loop(self, name, t, carried, head_binders, alts, call_head, k, doc):
         """emit the loop definition and continue after the loop"""
         tys = [self.lookup(py).ty for py in carried]
-        caps = list(t.captured.items())
+        caps = [(py, t.captured[py]) for py in self.unit.order(t.captured)]
         cap_b = " ".join("(%s : %s)" % (pv.t, pv.ty.lean()) for _, (pv, _) in caps)
         rty = tys[0].lean(True) if len(tys) == 1 else "(%s)" % T(*tys).lean()
         sig = "%s → %s → Except PyErr %s" % (head_binders, " → ".join(ty.lean(True) for ty in tys), rty)
@@ -1036,7 +1053,7 @@ class Tr:
 
     def recursive_call(self, t, name, head, carried):
         def end():
-            caps = " ".join(pv.t for _, (pv, _) in t.captured.items())
+            caps = " ".join(t.captured[py][0].t for py in self.unit.order(t.captured))
             tys = [self.lookup(py).ty for py in carried]
             vs = [t.cast(t.lookup(py), ty) for py, ty in zip(carried, tys)]
             return Ret(" ".join([name] + ([caps] if caps else []) + [head] + [paren(v, 100) for v in vs]), raw=True)
@@ -1323,16 +1340,55 @@ def _zeros(tr, b, node):
     return V("zeros2 %s %s" % (paren(a, 100), paren(c, 100)), MAT, 90)
 
 
+@idiom("np.any(_K[np.triu_indices_from(_K, 1)] < _D)", "anyUpperLt K d", "is some entry strictly above the diagonal `< d`")
+def _any_upper(tr, b, node):
+    k, d = _arg(tr, b["_K"], MAT), _arg(tr, b["_D"], N)
+    return V("anyUpperLt %s %s" % (paren(k, 100), paren(d, 100)), B, 90)
+
+
+@idiom("np.sum(_K < _D, axis=0)", "colCountLt K d", "per column, the number of entries `< d`")
+def _col_count(tr, b, node):
+    k, d = _arg(tr, b["_K"], MAT), _arg(tr, b["_D"], N)
+    c = V("colCountLt %s %s" % (paren(k, 100), paren(d, 100)), L(N), 90)
+    return V(None, None, vec=([c], lambda xs: xs[0]))
+
+
+@idiom("np.sum(np.ma.masked_less(_K, _D), axis=0).data", "colSumGe K d", "per column, the sum of the entries `≥ d` (masked sum; 0 for a "
+       "fully masked column)")
+def _col_sum(tr, b, node):
+    k, d = _arg(tr, b["_K"], MAT), _arg(tr, b["_D"], N)
+    c = V("colSumGe %s %s" % (paren(k, 100), paren(d, 100)), L(N), 90)
+    return V(None, None, vec=([c], lambda xs: xs[0]))
+
+
+@idiom("np.argmin(_V)", "npArgmin v", "index of the FIRST minimum of a 1-D array (`ValueError` when empty)")
+def _argmin(tr, b, node):
+    v = _arg(tr, b["_V"], L(Z))
+    return tr.bind_value("npArgmin %s" % paren(v, 100), N)
+
+
+@idiom("np.delete(_K, _R, axis=0)", "deleteRow K r", "the array without row `r` (`IndexError` out of range)")
+def _delete_row(tr, b, node):
+    k, r = _arg(tr, b["_K"], MAT), _arg(tr, b["_R"], N)
+    return tr.bind_value("deleteRow %s %s" % (paren(k, 100), paren(r, 100)), MAT)
+
+
+@idiom("np.delete(_K, _R, axis=1)", "deleteCol K r", "the array without column `r` (`IndexError` out of range)")
+def _delete_col(tr, b, node):
+    k, r = _arg(tr, b["_K"], MAT), _arg(tr, b["_R"], N)
+    return tr.bind_value("deleteCol %s %s" % (paren(k, 100), paren(r, 100)), MAT)
+
+
 @idiom("np.imag(_U)", "U.map (·.2)", "imaginary parts of a vector of complex numbers")
 def _imag(tr, b, node):
     u = _arg(tr, b["_U"], L(CPX))
-    return V(None, None, vec=(u, lambda z: V("%s.2" % z.t, N, 100, nonneg=True)))
+    return V(None, None, vec=([u], lambda zs: V("%s.2" % zs[0].t, N, 100, nonneg=True)))
 
 
 @idiom("np.real(_U)", "U.map (·.1)", "real parts of a vector of complex numbers")
 def _real(tr, b, node):
     u = _arg(tr, b["_U"], L(CPX))
-    return V(None, None, vec=(u, lambda z: V("%s.1" % z.t, N, 100, nonneg=True)))
+    return V(None, None, vec=([u], lambda zs: V("%s.1" % zs[0].t, N, 100, nonneg=True)))
 
 
 # ----------------------------------------------------------------------------- targets (fixed; reviewed against Model/MGH.lean)
@@ -1431,11 +1487,38 @@ TARGETS.append(dict(
          "`rowsAsDistributions` (each row: the frequencies of the distances `max_d, …, 1`)"),
     ]))
 
+# ---- find_largest_size_bounded_curvature  ->  largestBoundedCurvature exactMul
+TARGETS.append(dict(
+    func="find_largest_size_bounded_curvature", lean="find_largest_size_bounded_curvature",
+    params=[("DX", MAT), ("diam_X", N), ("d", N)], ret=MAT, skeleton="...", conversions=["int(diam_X)"],
+    while_bounds=["len(DX)"],
+    obligations=[
+        ("find_largest_size_bounded_curvature_loop_eq", "(diam_X d : Nat)",
+         "∀ (fuel : Nat) (K : List (List Nat)) (idx : List Nat), Sq K → K.length ≤ fuel →\n"
+         "      find_largest_size_bounded_curvature_loop diam_X d fuel K = .ok (curvLoop exactMul diam_X d fuel K idx).1",
+         "by\n  intro fuel\n  induction fuel with\n  | zero =>\n    intro K idx hK hl\n"
+         "    have : K = [] := List.length_eq_zero_iff.1 (by omega)\n    subst this\n    rfl\n  | succ fuel ih =>\n"
+         "    intro K idx hK hl\n    rw [find_largest_size_bounded_curvature_loop, curvLoop, anyUpperLt_eq hK]\n"
+         "    by_cases hc : anyUpperLess 0 K d = true\n"
+         "    · obtain ⟨h1, h2, h3, h4, h5⟩ := curv_step hK diam_X d hc\n      simp only [hc, if_true, h1, h2, h3]\n"
+         "      exact ih _ _ h4 (by omega)\n    · simp only [hc]; rfl",
+         "the `while np.any(K[np.triu_indices_from(K, 1)] < d)` loop on a square `K` with at least `len(K)` rounds allowed: "
+         "`np.argmin` and the two `np.delete` never raise, the bound is not exhausted, and the result is the curvature of the "
+         "model's `curvLoop` with the exact key product `len(K) * int(diam_X)` (`exactMul`)"),
+        ("src_find_largest_size_bounded_curvature_eq_model", "(DX : List (List Nat)) (diam_X d : Nat) (hX : Sq DX)",
+         "find_largest_size_bounded_curvature DX diam_X d = .ok (largestBoundedCurvature exactMul DX diam_X d).1",
+         "by\n  unfold find_largest_size_bounded_curvature largestBoundedCurvature\n"
+         "  simp only [find_largest_size_bounded_curvature_loop_eq diam_X d DX.length DX (List.range DX.length) hX (Nat.le_refl _)]",
+         "`find_largest_size_bounded_curvature(DX, diam_X, d)` on a square matrix: no exception, termination within `len(DX)` rounds, "
+         "and the model's curvature (the model's second component, the kept indices, is ghost)"),
+    ]))
+
 
 BINDINGS = {KEY: [
     ('StopIteration', 'builtin'),
     ('check_assignment_feasibility', 'def check_assignment_feasibility'),
     ('determine_optimal_int_type', 'def determine_optimal_int_type'),
+    ('find_largest_size_bounded_curvature', 'def find_largest_size_bounded_curvature'),
     ('int', 'builtin'),
     ('len', 'builtin'),
     ('list', 'builtin'),
@@ -1449,6 +1532,7 @@ BINDINGS = {KEY: [
 SIGNATURES = {
     'check_assignment_feasibility': 'def check_assignment_feasibility(v_distribution, u_distribution, d)',
     'represent_distance_matrix_rows_as_distributions': 'def represent_distance_matrix_rows_as_distributions(DX, max_d)',
+    'find_largest_size_bounded_curvature': 'def find_largest_size_bounded_curvature(DX, diam_X, d)',
 }
 
 
